@@ -145,6 +145,19 @@ Definition open_ (t : fs) (p : path) (m : mode) : errno + fs :=
       end
   end.
 
+(* os.unlink / pathlib.Path.unlink *)
+Definition remove (t : fs) (p : path) : fs :=
+  filter (fun e => negb (path_eqb (fst e) p)) t.
+Definition unlink_ (t : fs) (p : path) : errno + fs :=
+  match resolve t p with
+  | inl e => inl e
+  | inr q => match lookup t q with
+             | Some (File _) => inr (remove t q)
+             | Some Dir => inl EISDIR
+             | None => inl ENOENT
+             end
+  end.
+
 Definition write_at (t : fs) (p : path) (d : B) : fs :=
   match resolve t p with inr q => update t q (File d) | inl _ => t end.
 
@@ -160,6 +173,7 @@ Inductive call :=
 | CIsFile (p : path)               (* pathlib.Path.is_file *)
 | CExists (p : path)               (* pathlib.Path.exists *)
 | CMakedirs (p : path)             (* os.makedirs(exist_ok) / Path.mkdir(parents, exist_ok) *)
+| CUnlink (p : path)               (* pathlib.Path.unlink *)
 | COpen (p : path) (m : mode)      (* builtins.open (also the one inside gzip.open) *)
 | CWrite (p : path) (d : B)        (* the write(s) on the handle, as one step *)
 | CRead (p : path)                 (* read() of the whole file *)
@@ -178,6 +192,7 @@ Definition exec_call (t : fs) (c : call) : reply * fs :=
   | CIsFile p => (RBool (is_file t p), t)
   | CExists p => (RBool (exists_ t p), t)
   | CMakedirs p => match makedirs t p with inl e => (RErr e, t) | inr t' => (RUnit, t') end
+  | CUnlink p => match unlink_ t p with inl e => (RErr e, t) | inr t' => (RUnit, t') end
   | COpen p m => match open_ t p m with inl e => (RErr e, t) | inr t' => (RUnit, t') end
   | CWrite p d => (RUnit, write_at t p d)
   | CRead p => match read_at t p with Some d => (RData d, t) | None => (RErr EIO, t) end
@@ -217,6 +232,7 @@ Arguments Do {B A} c k.
 Arguments CIsFile {B} p.
 Arguments CExists {B} p.
 Arguments CMakedirs {B} p.
+Arguments CUnlink {B} p.
 Arguments COpen {B} p m.
 Arguments CWrite {B} p d.
 Arguments CRead {B} p.
